@@ -93,10 +93,17 @@ def _run(args):
             out.append({"solver": solver, "id": I["id"], "kind": I["kind"], "cfg": cfg, "harness_error": repr(e)})
             continue
         res = info.get("res")
+        detects = None
+        if solver == "coneqp" and I.get("thinPG"):
+            try:
+                detects = solvedrv.chol2_first_factor_detects(I, kw.get("storage", "dense"))
+            except Exception:
+                detects = None
         pobj = None
         if res is not None and res.get("primal objective") is not None:
             pobj = float(res["primal objective"])
         out.append({"solver": solver, "id": I["id"], "kind": I["kind"], "dims": I["dims"], "cfg": cfg, "trace": tr, "exc": info["exc"],
+                    "thin": bool(I.get("thinPG")), "chol_detects": detects,
                     "status": info["status"], "pobj": pobj, "det": {k: v for k, v in info["det"].items()}})
     return out
 
@@ -143,6 +150,14 @@ def report(ck, runs, verdict, props, pid_label):
             cert = last.get("cert", {}) if last["ev"] == "Return" else {}
             failed = sorted(k for k, val in cert.items() if val is False)
             c = r["cfg"]
+            lonly = not (r.get("dims") or {}).get("q") and not (r.get("dims") or {}).get("s")
+            if r["solver"] == "coneqp" and r.get("thin") and lonly and c.get("kktsolver") in (None, "chol2"):
+                # input class of a listed finding: kkt_chol2 on an exactly singular H + G'W^-2 G (rank([P; G]) < n)
+                ck.violation("coneqp|kkt_chol2|rank([P;G])<n|first-cholesky-%s-singularity" % (
+                                 "detects" if r.get("chol_detects") else "misses"),
+                             "%s with the chol2 KKT solver on a QP whose matrix [P; G] is rank deficient (A completes the rank): %s violated, "
+                             "outcome %s" % (c.get("entry"), p, outc), r)
+                continue
             if c.get("solver") == "glpk" and p in ("PinfCert", "DinfCert"):
                 # documented (coneprog.rst, lp): with the GLPK option no certificates are returned, all entries are None
                 if r["trace"][-1].get("cert", {}).get("glpk_all_none"):
@@ -151,7 +166,8 @@ def report(ck, runs, verdict, props, pid_label):
                 # external back-end: classify coarsely (its numerics are not this repository's code)
                 if r["kind"] in ("pinf", "dinf"):
                     cls = "reports-optimal-on-%s-problem" % r["kind"]
-                elif cert.get("near_1e5") and cert.get("fields_ok") and cert.get("split_ok") and cert.get("pres_ok"):
+                elif cert.get("fields_ok") and cert.get("split_ok") and (r.get("det") or {}).get("pres", 1) < 1e-3 \
+                        and (r.get("det") or {}).get("dres", 1) < 1e-3 and abs((r.get("det") or {}).get("gap", 1)) < 1e-2:
                     cls = "accuracy-below-requested-tolerances"
                 else:
                     cls = "cert=" + "+".join(failed)
